@@ -101,7 +101,23 @@ func regionOf(v ssa.Value, depth int) (region, string) {
 		if bi, ok := x.Call.Value.(*ssa.Builtin); ok && bi.Name() == "append" {
 			return regionOf(x.Call.Args[0], depth+1)
 		}
-		return regPrivate, "result of a call"
+		// a call result lives at most where its reference arguments live:
+		// pool.Get(), cache lookups, accessors of shared objects
+		worst, why := regPrivate, "result of a call on private/argument data"
+		args := x.Call.Args
+		if x.Call.IsInvoke() {
+			args = append([]ssa.Value{x.Call.Value}, args...)
+		}
+		for _, a := range args {
+			if !refType(a.Type()) {
+				continue
+			}
+			r, w := regionOf(a, depth+1)
+			if r == regShared {
+				worst, why = regShared, "result of a call on "+w
+			}
+		}
+		return worst, why
 	case *ssa.Const:
 		return regPrivate, "constant"
 	case *ssa.Next:
@@ -110,6 +126,25 @@ func regionOf(v ssa.Value, depth int) (region, string) {
 		return regionOf(x.X, depth+1)
 	}
 	return regUnknown, fmt.Sprintf("unclassified %T", v)
+}
+
+func refType(t types.Type) bool {
+	switch t.Underlying().(type) {
+	case *types.Pointer, *types.Map, *types.Slice, *types.Chan:
+		return true
+	}
+	return false
+}
+
+// sharedArgAllowed: library calls that only read the shared argument.
+func sharedArgAllowed(name string, argIdx int) bool {
+	switch name {
+	case "http.ResponseWriter.Write", "io.Writer.Write": // Write must not modify the slice (io.Writer contract)
+		return true
+	case "bytes.Equal", "bytes.NewReader", "bytes.NewBuffer", "fmt.Errorf", "fmt.Sprintf", "log.Println", "log.Printf":
+		return true
+	}
+	return false
 }
 
 // CheckIsolation: C20 over the corpus.
@@ -144,6 +179,38 @@ func (cr *CheckRun) CheckIsolation(entries []CorpusEntry) {
 						}
 					case *ssa.Go:
 						target, kind = nil, "go"
+					}
+					// library / interface calls that receive a reference into shared memory
+					if ci, ok := in.(ssa.CallInstruction); ok && kind == "" {
+						cc := ci.Common()
+						callee := cc.StaticCallee()
+						external := cc.IsInvoke() || (callee != nil && (callee.Pkg == nil || callee.Pkg != job.Em.Pkg))
+						if _, isB := cc.Value.(*ssa.Builtin); isB {
+							external = false
+						}
+						if external && !isInit {
+							cname := ""
+							if cc.IsInvoke() {
+								cname = shortType(cc.Value.Type()) + "." + cc.Method.Name()
+							} else {
+								cname = callee.String()
+							}
+							for ai, a := range cc.Args {
+								if !refType(a.Type()) {
+									continue
+								}
+								if r, w := regionOf(a, 0); r == regShared && !sharedArgAllowed(cname, ai) {
+									n := counts["sharedarg"]
+									counts["sharedarg"]++
+									o := &Obligation{Name: fmt.Sprintf("%s/frame/sharedarg#%d", name, n), Func: name, Class: "frame", Props: []string{"C20"}, Pos: job.Em.W.Prog.Fset.Position(in.Pos()), Status: "failed", Formula: fmt.Sprintf("%s receives a reference to %s", cname, w)}
+									cr.mu.Lock()
+									cr.Obligations++
+									cr.Functions[name] = true
+									cr.Failures = append(cr.Failures, &Failure{Prop: "C20", Obl: o, Entry: job.Em.Entry.Name, Verdict: "violation"})
+									cr.mu.Unlock()
+								}
+							}
+						}
 					}
 					if kind == "" {
 						continue
